@@ -30,12 +30,17 @@ PROPS_FILES = ["CogentModel/Props/C18.lean", "CogentModel/Props/C18G.lean"]
 LEAN_TARGETS = ["CogentModel.Props.C18", "CogentModel.Props.C18G"]
 DRIVER = "drv_c18"
 GEN_FILE_GAPS = LEAN / "CogentModel" / "Gen" / "C18Gaps.lean"
+GEN_FILE_POG = LEAN / "CogentModel" / "Gen" / "C18Pog.lean"
 TRUSTED = [
     "translator/c18_gaps2lean.py (ast only): _GapOffset.__init__/__getitem__, _gap_difference, _merged_gaps, "
     "_subset_gaps_to_align_coords, _combined_refseq_gaps, _gaps_for_injection of app/align.py -> Gen/C18Gaps.lean on every run; "
     "Props/C18G.lean proves every generated definition equal to the hand model Model/GapMerge.lean for all arguments (dicts as "
     "association lists with unique keys; rules R1-R6 of the translator's docstring are the trusted reading of dict iteration, "
     "update, the _ordered cache and set order)",
+    "translator/c18_pog2lean.py (ast only): align/indel_positions.py pog_traceback + POGBuilder.__init__/add_skipped/add_aligned/"
+    "get_pog sliced to the attribute aligned_positions -> Gen/C18Pog.lean on every run; Props/C18G.lean proves it equal to "
+    "Model/Progressive.lean::pogTraceback for all widths and all position lists (asserts are not modelled; statements that only "
+    "maintain remap/last/result/states are sliced away after a check that they cannot leave the method)",
     "hand-written model lean/CogentModel/Model/PairHMM.lean of the numba Viterbi kernel + traceback (tied by the "
     "exact-rational shadow: optimum/path score recomputed from the real hmm's own float64 T and emission arrays)",
     "hand-written model lean/CogentModel/Model/GapMerge.lean of app/align.py gap-dict helpers (tied by exact "
@@ -77,7 +82,18 @@ def generate(ctx):
     ctx.notes.append(f"c18_gaps2lean: {json.dumps(info.get('seen', {}))[:600]}")
     if lean is not None and c18_gaps2lean.write_if_changed(GEN_FILE_GAPS, lean):
         ctx.notes.append("Gen/C18Gaps.lean was rewritten (source of the gap helpers differs from the last generated text)")
-    return [f"c18_gaps2lean: {p}" for p in problems]
+    out = [f"c18_gaps2lean: {p}" for p in problems]
+    # column completion of progressive alignment: pog_traceback + the POGBuilder methods it drives
+    from translator import c18_pog2lean
+
+    try:
+        lean, info, problems = c18_pog2lean.translate(SRC / "align" / "indel_positions.py")
+    except (c18_pog2lean.TranslationError, SyntaxError, OSError) as e:
+        return out + [f"c18_pog2lean: {e}"]
+    ctx.notes.append(f"c18_pog2lean: {json.dumps(info.get('seen', {}))[:400]}")
+    if lean is not None and c18_pog2lean.write_if_changed(GEN_FILE_POG, lean):
+        ctx.notes.append("Gen/C18Pog.lean was rewritten (source of pog_traceback / POGBuilder differs from the last generated text)")
+    return out + [f"c18_pog2lean: {p}" for p in problems]
 
 PROT = "ACDEFGHIKLMNPQRSTVWY"
 
